@@ -16,7 +16,7 @@ static std::string lenclass(size_t n, int T) {
 static void build(const Args &a, std::vector<Case> &out) {
   std::string mode = a.str("mode", "c01");
   bool thorough = a.str("tier", "quick") == "thorough";
-  int nkeys = thorough ? 3 : 1, nseeds = (mode == "c02") ? (thorough ? 4 : 2) : (thorough ? 2 : 1), ncont = thorough ? 4 : 2;
+  int nkeys = thorough ? 3 : 1, nseeds = (mode == "c02") ? (thorough ? fo::NSEEDS : 3) : (thorough ? 3 : 2), ncont = thorough ? 4 : 2;
   std::vector<int> Ts = a.list("T", {1, 2, 3, 4, 5, 6, 7, 8, 9, 10, 11, 12, 13, 14, 15, 16});
   for (int T : Ts) {
     size_t maxn = (size_t)(T + 2) * S + 17;
